@@ -188,12 +188,21 @@ static const char *n_class(size_t n, uint64_t k, bool right)
 }
 
 // ---------------------------------------------------------------- separators
-enum Form { F_CHAR, F_CSTR, F_STR, NFORMS };
-static const char *FORMN[NFORMS] = {"char", "const char*", "ST::string"};
+enum Form { F_CHAR, F_CSTR, F_STR, F_U8, NFORMS };
+static const char *FORMN[NFORMS] = {"char", "const char*", "ST::string", "const char8_t*"};
 
 static ST::string call_sep(int op, int form, const ST::string &s, char ch, const char *cz, const ST::string &ss, bool ci)
 {
     ST::case_sensitivity_t cs = ci ? ST::case_insensitive : ST::case_sensitive;
+    if (form == F_U8) {
+        const char8_t *u8 = reinterpret_cast<const char8_t *>(cz);
+        switch (op) {
+        case BF: return s.before_first(u8, cs);
+        case AF: return s.after_first(u8, cs);
+        case BL: return s.before_last(u8, cs);
+        default: return s.after_last(u8, cs);
+        }
+    }
     switch (op) {
     case BF: return form == F_CHAR ? s.before_first(ch, cs) : form == F_CSTR ? s.before_first(cz, cs) : s.before_first(ss, cs);
     case AF: return form == F_CHAR ? s.after_first(ch, cs) : form == F_CSTR ? s.after_first(cz, cs) : s.after_first(ss, cs);
@@ -222,10 +231,10 @@ static void check_sides(Ctx &c, const std::string &subj, const std::string &sep)
     const char ch = sep.size() == 1 ? sep[0] : 0;
     bool nt = false;
     std::string emptyval[NFORMS][4];
-    bool emptyok[NFORMS] = {false, false, false};
+    bool emptyok[NFORMS] = {false, false, false, false};
     for (int form = 0; form < NFORMS; ++form) {
         if (form == F_CHAR && sep.size() != 1) continue;
-        const std::string &esep = form == F_CSTR ? csep : sep;  // the bytes this overload form denotes
+        const std::string &esep = (form == F_CSTR || form == F_U8) ? csep : sep;  // the bytes this overload form denotes
         const char *sepcls = esep.empty() ? "empty" : esep.size() == 1 ? "1" : "multi";
         for (int ci = 0; ci < 2; ++ci) {
             if (esep.empty()) {
@@ -277,7 +286,7 @@ static void check_sides(Ctx &c, const std::string &subj, const std::string &sep)
                             std::string p2 = fp;
                             Res r2 = run(fs.size(), [&] { return call_sep(op, form, s2, (char)refs::fold((unsigned char)ch), p2.c_str(), ss2, false); });
                             fold_specific = r2.o.ok() && !r2.toolong &&
-                                            r2.val == ref_sep(op, fs, form == F_CSTR ? refs::cstr_part(fp) : fp, false);
+                                            r2.val == ref_sep(op, fs, (form == F_CSTR || form == F_U8) ? refs::cstr_part(fp) : fp, false);
                         }
                         return strf("%s(%s):sep=%s:occ%s%s", OPN[op], FORMN[form], sepcls, occ ? ">0" : "=0", fold_specific ? ":ci" : "");
                     },
@@ -489,7 +498,7 @@ static void build(vf::Plan &plan, const vf::Opts &o)
     const std::string SA("abA:\0", 5);
     const unsigned SL = T ? 7 : 6;
     const uint64_t nsep = vf::seq_count(SA.size(), 3);
-    plan.stage(strf("before/after:{a,b,A,':',NUL}^<=%u x sep^<=3 x 3 forms x cs/ci", SL), vf::seq_count(SA.size(), SL) * nsep,
+    plan.stage(strf("before/after:{a,b,A,':',NUL}^<=%u x sep^<=3 x 4 forms x cs/ci", SL), vf::seq_count(SA.size(), SL) * nsep,
                [SA, SL, nsep](uint64_t idx, Ctx &c) {
                    std::string sep = seq_string(vf::take(idx, nsep), SA, 3);
                    check_sides(c, seq_string(idx, SA, SL), sep);
